@@ -352,6 +352,8 @@ func c12(r *ev.Result, tier string) {
 			r.Violate(ev.Violation{Signature: sig + "/pre=" + strings.Join(c.Pre, "+") + "/" + c.Arrival, What: fmt.Sprintf("%+v: %s", c, what), Kind: "c12", Replay: c})
 		}
 	})
+	/* Two scenarios with the server in-process. */
+	c12InProcess(r)
 	r.Sample(3, cases[len(cases)/2])
 	r.Sample(3, cases[len(cases)-1])
 	r.Assume("'shortly' is implemented as 'refused at some poll within 20 s'; the operator's next line is entered 3 s after the shell is gone (net/http's graceful shutdown polls at up to 500 ms)")
